@@ -24,3 +24,13 @@ func verifYield(point string, r *http.Request) {
 		fn(point, r)
 	}
 }
+
+// verifYieldKey is verifYield for code paths that have no *http.Request at hand: the callback receives a
+// synthetic request whose X-Verif-Conn header is "key:<key>".
+func verifYieldKey(point string, key string) {
+	if fn, ok := verifYieldFn.Load().(func(string, *http.Request)); ok && fn != nil {
+		r := &http.Request{Header: http.Header{}}
+		r.Header.Set("X-Verif-Conn", "key:"+key)
+		fn(point, r)
+	}
+}
